@@ -247,7 +247,10 @@ def rule_single_critical_section(ctx, f, rid):
         mops = [c for c in b.calls() if c.matches(["HashMap::remove", "HashMap::clear", "HashMap::values", "HashMap::len", "HashMap::get", "HashMap::insert",
                                                     "HashMap::iter", "HashMap::retain", "HashMap::drain", "HashMap::keys", "HashMap::values_mut", "HashMap::iter_mut"])]
         under = [c for c in mops if guard_of(c.args[0]) == w.result_term()]
-        ctx.ob(rid, m + "|ops-under-guard", len(under) == len(mops) and any(c.matches(ops) for c in under),
+        # `mem::take(&mut *guard)` swaps an empty map in: the map is cleared at that point (the old children are merely dropped later)
+        takes = [c for c in b.calls() if c.matches(["mem::take", "std::mem::take", "core::mem::take"]) and c.args and guard_of(c.args[0]) == w.result_term()]
+        cleared_by_take = "HashMap::clear" in ops and len(takes) == 1 and count_range(b, [takes[0].bb]) == (1, 1)
+        ctx.ob(rid, m + "|ops-under-guard", len(under) == len(mops) and (any(c.matches(ops) for c in under) or cleared_by_take),
                "every map operation of %s must go through the one guard (found %d of %d) and include %s" % (m, len(under), len(mops), ops), site=w.span)
         if m in ("delete_label_values", "delete"):
             rm = [c for c in under if c.matches("HashMap::remove")]
